@@ -1,5 +1,7 @@
 package schema
 
+import "fmt"
+
 // Core is a fixed population of schemas that puts every listed type shape into every
 // kind of record at least once, independent of the seed. Shapes that today do not
 // survive compilation of the generated code live in programs of their own so that they
@@ -125,6 +127,34 @@ func Core() []*Schema {
 		Un("List", Br(1, St("Cons", F("head", P("uint32")), F("tail", N("List")))), Br(2, St("Null"))),
 		Msg("Tree", MF(1, "v", P("int64")), MF(2, "kids", A(N("Tree"))), MF(3, "named", M("string", N("Tree")))),
 		St("Forest", F("l", N("List")), F("t", N("Tree")), F("n", P("byte")))))
+
+	// 8b. wide records: fixed-size structs of 256 bytes and more (8-bit size arithmetic in a
+	// generator or decoder wraps there), alone, nested with followers, in arrays, maps,
+	// messages and unions
+	var wf []Field
+	for i := 0; i < 17; i++ {
+		wf = append(wf, F(fmt.Sprintf("g%02d", i), P("guid")))
+	}
+	var mf2 []Field
+	mf2 = append(mf2, F("id", P("guid")), F("at", P("date")), F("n", P("uint32")))
+	for i := 0; i < 32; i++ {
+		mf2 = append(mf2, F(fmt.Sprintf("m%02d", i), P("float64")))
+	}
+	out = append(out, mk("wide",
+		St("Wide", wf...), St("Mixed", mf2...),
+		St("HoldsWide", F("w", N("Wide")), F("after", P("uint32")), F("m", N("Mixed")), F("lbl", P("string"))),
+		St("WideArr", F("ws", A(N("Wide"))), F("tail", P("uint16")), F("ms", A(N("Mixed"))), F("end", P("byte"))),
+		St("WideMap", F("wm", M("string", N("Wide"))), F("tail", P("uint16"))),
+		Msg("WideMsg", MF(1, "w", N("Wide")), MF(2, "ws", A(N("Mixed"))), MF(3, "after", P("uint32"))),
+		Un("WideU", Br(1, St("WideB", F("w", N("Wide")), F("z", P("byte")))), Br(2, Msg("WideC", MF(1, "m", N("Mixed")), MF(2, "z", P("byte"))))),
+		St("HoldsWideU", F("u", N("WideU")), F("after", P("int64")))))
+
+	// 8c. deprecated fields inside structs (they stay on the wire, unlike in messages)
+	out = append(out, mk("depstruct",
+		St("DepS", F("a", P("int32")), Dep(F("old", P("int64"))), F("z", P("byte"))),
+		St("DepArr", F("ds", A(N("DepS"))), F("tail", P("uint16"))),
+		Msg("DepHolder", MF(1, "ds", A(N("DepS"))), MF(2, "after", P("uint32")), MF(3, "one", N("DepS")), MF(4, "dm", M("uint8", N("DepS")))),
+		Un("DepU", Br(1, St("DepB", F("d", N("DepS")), Dep(F("gone", P("guid"))), F("k", P("uint16")))))))
 
 	// 9. shapes known to be fragile at compile time: kept apart
 	out = append(out, mk("enumarr", En("Col", "uint8", EO("R", 0), EO("G", 1)), St("EnumArr", F("cs", A(N("Col"))), F("n", P("byte")))))
